@@ -536,6 +536,17 @@ int main(int argc, char **argv) {
       g.scaleShift = (int)r.pick(std::vector<int>{0, 0, 3, vs / 2, vs});
     }
     Circuit base = vg::genCircuit(r, g);
+    if (argi("hugeArea", 0)) {
+      // magnify so that the total movable area lands between 2^31 and 2^32 (where a 32-bit sum turns negative) while every single
+      // cell stays far below 2^31
+      long long total = 0;
+      for (int i = 0; i < base.nbCells(); ++i)
+        if (!base.isFixed(i)) total += base.area(i);
+      if (total > 0) {
+        int f = (int)std::llround(std::sqrt(1.4 * 2147483648.0 / (double)total));
+        if (f >= 2 && f < 20000) vg::magnifyCircuit(base, f);
+      }
+    }
     if (argi("translate", 0)) {
       // far from the origin: 2^24 is where single-precision floats stop representing every integer
       static const std::vector<int> shifts = {0, (1 << 24) + 1, (1 << 25) + 3, -(1 << 25) - 5, 1 << 27};
